@@ -783,6 +783,9 @@ func replayOnce(bin, scratch, path string) (reproduced, traceEqual bool, out str
 }
 
 func replay(path string) int {
+	if abs, err := filepath.Abs(path); err == nil {
+		path = abs
+	}
 	b, err := os.ReadFile(path)
 	if err != nil {
 		fatal2("%v", err)
